@@ -61,6 +61,16 @@ CLAIMED['C07'] = dict(
          'compute differently (len vs max). The same sequences are also replayed on RAM, in-memory SQLite and an SQLite file and compared '
          'pairwise after every step. Two real divergences were found and repaired (fix: commits).'),
    note=SVC_NOTE + ' Other SQL engines are not covered.', technique='refinement of both backends to one Rocq model + differential replay', design='5/C07')
+CLAIMED['C12'] = dict(
+   text=('Theorem C12_exactly_once_partial (closed under the global context): for every history of requests in which trial ids are unique, '
+         'bounded by max_trial_id, and max_trial_id never decreases, the completed-trial deliveries of IdDeduplicatingTrialLoader over the whole '
+         'life of the study are duplicate-free (at most once), contain every trial completed by request k by request k (at least once), contain '
+         'only completed trials, and each update carries exactly the trials ACTIVE at that moment; restarts (dump->load) keep the state; a fresh or '
+         'state-less policy gets everything (C12_fresh_policy_gets_all, C12_lost_state_gets_all). The unguarded statement is REFUTED by a '
+         'kernel-checked history (C12_full_refuted) = known finding C12-max-trial-id-decreases. Tie: the real loader, the three policy wrappers over '
+         'InRamPolicySupporter and the policies hosted in the real service are compared with the model on generated histories.'),
+   note=BASE_TB + ' The recording designer and the world generator of harness/props/c12.py.',
+   technique='Rocq proof (invariant over request histories, pigeonhole on the id set) + vm_compute correspondence', design='5/C12')
 ALL = ['C%02d' % i for i in range(1, 21)]
 m = {
  'version': 1,
